@@ -239,4 +239,344 @@ theorem delta_eq_none {fits : Rat → Bool} {d cs q : Rat} {side : Side} :
           delta_eq_some.mpr ⟨h1, h2, rfl⟩
         rw [h] at this; cases this
 
+/-! ### `rust_decimal`'s multiplication with rounding (`decMul`, `decExact`) -/
+
+theorem rneDiv_of_dvd {n d : Nat} (hd : 0 < d) (h : n % d = 0) : rneDiv n d = n / d := by
+  unfold rneDiv; simp [h, hd]
+
+theorem rat_eq_num_div_den (x : Rat) : x = (x.num : Rat) / ((x.den : Int) : Rat) := by
+  rw [← Rat.divInt_eq_div, Rat.num_divInt_den]
+
+/-- `|x| · 10^e` is an integer. -/
+def intAt (x : Rat) (e : Nat) : Prop := (x.num.natAbs * 10 ^ e) % x.den = 0
+
+theorem intAt_mono {x : Rat} {e₀ e : Nat} (h : intAt x e₀) (he : e₀ ≤ e) : intAt x e := by
+  unfold intAt at *
+  obtain ⟨k, rfl⟩ := Nat.exists_eq_add_of_le he
+  have hd := Nat.dvd_of_mod_eq_zero h
+  rw [Nat.pow_add, ← Nat.mul_assoc]
+  exact Nat.mod_eq_zero_of_dvd (Nat.dvd_trans hd (Nat.dvd_mul_right _ _))
+
+theorem exactAt_iff {x : Rat} {e : Nat} :
+    exactAt x e = true ↔ intAt x e ∧ x.num.natAbs * 10 ^ e / x.den ≤ decMantMax := by
+  simp [exactAt, intAt]
+
+theorem mantAt_of_intAt {x : Rat} {e : Nat} (h : intAt x e) :
+    mantAt x e = x.num.natAbs * 10 ^ e / x.den := rneDiv_of_dvd x.den_pos h
+
+theorem decValue_of_intAt {x : Rat} {e : Nat} (h1 : intAt x e) : decValue x (mantAt x e) e = x := by
+  have hd : 0 < x.den := x.den_pos
+  have hm := mantAt_of_intAt h1
+  have hmul : mantAt x e * x.den = x.num.natAbs * 10 ^ e := by
+    rw [hm]; exact Nat.div_mul_cancel (Nat.dvd_of_mod_eq_zero h1)
+  have hI : x.num.sign * (mantAt x e : Int) * (x.den : Int) = x.num * (10 : Int) ^ e := by
+    have : ((mantAt x e * x.den : Nat) : Int) = ((x.num.natAbs * 10 ^ e : Nat) : Int) := by rw [hmul]
+    rw [Int.natCast_mul, Int.natCast_mul, Int.natCast_pow] at this
+    rw [Int.mul_assoc, this, ← Int.mul_assoc, Int.sign_mul_natAbs]; rfl
+  have hR : ((x.num.sign * (mantAt x e : Int) : Int) : Rat) * ((x.den : Int) : Rat)
+      = (x.num : Rat) * (((10 : Int) ^ e : Int) : Rat) := by
+    rw [← Rat.intCast_mul, ← Rat.intCast_mul, hI]
+  have hden : ((x.den : Int) : Rat) ≠ 0 := by
+    rw [Ne, Rat.intCast_eq_zero_iff]; have := x.den_nz; omega
+  have h10 : (((10 : Int) ^ e : Int) : Rat) ≠ 0 := by
+    rw [Ne, Rat.intCast_eq_zero_iff]; exact Int.pow_ne_zero (by decide)
+  unfold decValue
+  conv => rhs; rw [rat_eq_num_div_den x]
+  grind
+
+theorem decRoundFrom_exact {x : Rat} {e₀ : Nat} (h : exactAt x e₀ = true) :
+    ∀ e, e₀ ≤ e → decRoundFrom x e = some x := by
+  obtain ⟨hi, hm⟩ := exactAt_iff.mp h
+  intro e
+  induction e with
+  | zero =>
+    intro he
+    have : e₀ = 0 := by omega
+    subst this
+    have hm' : mantAt x 0 ≤ decMantMax := by rw [mantAt_of_intAt hi]; exact hm
+    unfold decRoundFrom
+    rw [if_pos hm', decValue_of_intAt hi]
+  | succ e ih =>
+    intro he
+    have hi' := intAt_mono hi he
+    unfold decRoundFrom
+    split
+    · rw [decValue_of_intAt hi']
+    · next hnf =>
+      have : e₀ ≠ e + 1 := by
+        intro heq; subst heq; rw [mantAt_of_intAt hi] at hnf; exact hnf hm
+      exact ih (by omega)
+
+theorem decExact_iff_exists {x : Rat} : decExact x = true ↔ ∃ e, e ≤ 28 ∧ exactAt x e = true := by
+  simp only [decExact, List.any_eq_true, List.mem_range]
+  constructor
+  · rintro ⟨e, he, h⟩; exact ⟨e, by omega, h⟩
+  · rintro ⟨e, he, h⟩; exact ⟨e, by omega, h⟩
+
+/-- No rounding, no overflow on exactly representable results. -/
+theorem decRound_exact {x : Rat} (h : decExact x = true) : decRound x = some x := by
+  obtain ⟨e, he, h⟩ := decExact_iff_exists.mp h
+  exact decRoundFrom_exact h 28 he
+
+
+theorem cross_of_eq_div {x : Rat} {m : Int} {e : Nat} (hx : x = (m : Rat) / (10 : Rat) ^ e) :
+    x.num.natAbs * 10 ^ e = m.natAbs * x.den := by
+  have hden : ((x.den : Int) : Rat) ≠ 0 := by
+    rw [Ne, Rat.intCast_eq_zero_iff]; have := x.den_nz; omega
+  have h10 : (10 : Rat) ^ e ≠ 0 := Rat.ne_of_gt (Rat.pow_pos (by decide))
+  have h := rat_eq_num_div_den x
+  have hR : (x.num : Rat) * (10 : Rat) ^ e = (m : Rat) * ((x.den : Int) : Rat) := by
+    have h2 : (x.num : Rat) / ((x.den : Int) : Rat) = (m : Rat) / (10 : Rat) ^ e := by rw [← h, ← hx]
+    grind
+  have hI : x.num * (10 : Int) ^ e = m * (x.den : Int) := by
+    have h10' : (10 : Rat) ^ e = (((10 : Int) ^ e : Int) : Rat) := by rw [Rat.intCast_pow]; rfl
+    rw [h10', ← Rat.intCast_mul, ← Rat.intCast_mul, Rat.intCast_inj] at hR
+    exact hR
+  have := congrArg Int.natAbs hI
+  rw [Int.natAbs_mul, Int.natAbs_mul, Int.natAbs_pow] at this
+  simpa using this
+
+/-- Every `mantissa / 10^scale` with a 96-bit mantissa and scale ≤ 28 is exactly representable. -/
+theorem decExact_of_mantissa (m : Int) (e : Nat) (he : e ≤ 28) (hm : m.natAbs ≤ decMantMax) :
+    decExact ((m : Rat) / (10 : Rat) ^ e) = true := by
+  refine decExact_iff_exists.mpr ⟨e, he, exactAt_iff.mpr ?_⟩
+  have hc := cross_of_eq_div (x := (m : Rat) / (10 : Rat) ^ e) rfl
+  have hd := ((m : Rat) / (10 : Rat) ^ e).den_pos
+  unfold intAt
+  rw [hc]
+  exact ⟨Nat.mul_mod_left _ _, by rw [Nat.mul_div_cancel _ hd]; exact hm⟩
+
+theorem decValue_eq (x : Rat) (m e : Nat) :
+    decValue x m e = ((x.num.sign * (m : Int) : Int) : Rat) / (10 : Rat) ^ e := by
+  unfold decValue; rw [Rat.intCast_pow]; rfl
+
+theorem natAbs_sign_mul_le (a : Int) (m : Nat) : (a.sign * (m : Int)).natAbs ≤ m := by
+  rw [Int.natAbs_mul, Int.natAbs_natCast]
+  rcases Int.lt_trichotomy a 0 with h | h | h
+  · rw [Int.sign_eq_neg_one_of_neg h]; simp
+  · subst h; simp
+  · rw [Int.sign_eq_one_of_pos h]; simp
+
+/-- … and nothing else is: `decExact` is "is a `Decimal`". -/
+theorem decExact_iff {x : Rat} :
+    decExact x = true ↔
+      ∃ (m : Int) (e : Nat), e ≤ 28 ∧ m.natAbs ≤ decMantMax ∧ x = (m : Rat) / (10 : Rat) ^ e := by
+  constructor
+  · intro h
+    obtain ⟨e, he, h⟩ := decExact_iff_exists.mp h
+    obtain ⟨hi, hm⟩ := exactAt_iff.mp h
+    refine ⟨x.num.sign * (mantAt x e : Int), e, he, ?_, ?_⟩
+    · exact Nat.le_trans (natAbs_sign_mul_le _ _) (by rw [mantAt_of_intAt hi]; exact hm)
+    · rw [← decValue_eq, decValue_of_intAt hi]
+  · rintro ⟨m, e, he, hm, rfl⟩
+    exact decExact_of_mantissa m e he hm
+
+/-- Whatever the multiplication stores is a `Decimal`. -/
+theorem decRoundFrom_shape {x v : Rat} : ∀ e, decRoundFrom x e = some v →
+    ∃ e', e' ≤ e ∧ mantAt x e' ≤ decMantMax ∧ v = decValue x (mantAt x e') e' := by
+  intro e
+  induction e with
+  | zero =>
+    intro h
+    unfold decRoundFrom at h
+    split at h
+    · next hf => exact ⟨0, Nat.le_refl _, hf, by cases h; rfl⟩
+    · cases h
+  | succ e ih =>
+    intro h
+    unfold decRoundFrom at h
+    split at h
+    · next hf => exact ⟨e + 1, Nat.le_refl _, hf, by cases h; rfl⟩
+    · obtain ⟨e', he', r⟩ := ih h
+      exact ⟨e', by omega, r⟩
+
+theorem decRound_shape {x v : Rat} (h : decRound x = some v) :
+    ∃ e, e ≤ 28 ∧ mantAt x e ≤ decMantMax ∧ v = decValue x (mantAt x e) e :=
+  decRoundFrom_shape 28 h
+
+theorem decRound_is_decimal {x v : Rat} (h : decRound x = some v) : decExact v = true := by
+  obtain ⟨e, he, hm, rfl⟩ := decRound_shape h
+  rw [decValue_eq]
+  exact decExact_of_mantissa _ e he (Nat.le_trans (natAbs_sign_mul_le _ _) hm)
+
+theorem decRoundFrom_none_iff {x : Rat} : ∀ e, decRoundFrom x e = none ↔
+    ∀ e', e' ≤ e → decMantMax < mantAt x e' := by
+  intro e
+  induction e with
+  | zero =>
+    unfold decRoundFrom
+    split
+    · next hf =>
+      constructor
+      · intro h; cases h
+      · intro h; have := h 0 (Nat.le_refl _); omega
+    · next hf =>
+      constructor
+      · intro _ e' he'
+        have : e' = 0 := by omega
+        subst this; omega
+      · intro _; rfl
+  | succ e ih =>
+    unfold decRoundFrom
+    split
+    · next hf =>
+      constructor
+      · intro h; cases h
+      · intro h; have := h (e + 1) (Nat.le_refl _); omega
+    · next hf =>
+      rw [ih]
+      constructor
+      · intro h e' he'
+        by_cases h1 : e' = e + 1
+        · subst h1; omega
+        · exact h e' (by omega)
+      · intro h e' he'; exact h e' (by omega)
+
+
+theorem rneDiv_ge (n d : Nat) : n / d ≤ rneDiv n d := by
+  unfold rneDiv; split <;> (try split) <;> (try split) <;> omega
+
+theorem rneDiv_le (n d : Nat) : rneDiv n d ≤ n / d + 1 := by
+  unfold rneDiv; split <;> (try split) <;> (try split) <;> omega
+
+/-- The stored mantissa is within half a unit of the exact one (`rneDiv n d · d` vs `n`). -/
+theorem rneDiv_error (n d : Nat) (hd : 0 < d) :
+    2 * (rneDiv n d * d - n) ≤ d ∧ 2 * (n - rneDiv n d * d) ≤ d := by
+  have h := Nat.div_add_mod n d
+  have hlt := Nat.mod_lt n hd
+  have hc : d * (n / d) = n / d * d := Nat.mul_comm _ _
+  unfold rneDiv
+  split
+  · omega
+  · split
+    · rw [Nat.add_mul]; omega
+    · split
+      · omega
+      · rw [Nat.add_mul]; omega
+
+theorem rneDiv_le_of_le {n d M : Nat} (hd : 0 < d) (h : n ≤ M * d) : rneDiv n d ≤ M := by
+  have hq : n / d ≤ M := by
+    apply Nat.div_le_of_le_mul; rw [Nat.mul_comm]; exact h
+  by_cases hr : n % d = 0
+  · rw [rneDiv_of_dvd hd hr]; exact hq
+  · have h1 := rneDiv_le n d
+    have hlt : n / d < M := by
+      apply Nat.lt_of_mul_lt_mul_right (a := d)
+      have := Nat.div_add_mod n d
+      have hc : d * (n / d) = n / d * d := Nat.mul_comm _ _
+      omega
+    omega
+
+theorem abs_le_natCast_iff {x : Rat} {M : Nat} : x.abs ≤ (M : Rat) ↔ x.num.natAbs ≤ M * x.den := by
+  rcases abs_cases x with ⟨h, e⟩ | ⟨h, e⟩ <;> rw [e, Rat.le_iff]
+  · have := Rat.num_nonneg.mpr h
+    simp only [Rat.num_natCast, Rat.den_natCast]
+    omega
+  · have : x.num < 0 := by
+      apply Int.not_le.mp
+      intro h'
+      exact absurd (Rat.num_nonneg.mp h') (Rat.not_le.mpr h)
+    simp only [Rat.num_natCast, Rat.den_natCast, Rat.neg_num, Rat.neg_den]
+    omega
+
+theorem decMax_eq : decMax = (decMantMax : Rat) := by
+  simp [decMax, decMantMax]
+
+theorem decFits_iff {x : Rat} : decFits x = true ↔ x.num.natAbs ≤ decMantMax * x.den := by
+  rw [decFits, decide_eq_true_eq, decMax_eq, abs_le_natCast_iff]
+
+/-- A result whose exact value does not overflow is never `None` (it may be rounded). -/
+theorem decRound_some_of_fits {x : Rat} (h : decFits x = true) : ∃ v, decRound x = some v := by
+  cases hr : decRound x with
+  | some v => exact ⟨v, rfl⟩
+  | none =>
+    have := (decRoundFrom_none_iff 28).mp hr 0 (by omega)
+    have h2 : mantAt x 0 ≤ decMantMax := by
+      unfold mantAt
+      apply rneDiv_le_of_le x.den_pos
+      simpa using decFits_iff.mp h
+    omega
+
+/-- An exactly representable value is in range. -/
+theorem decFits_of_decExact {x : Rat} (h : decExact x = true) : decFits x = true := by
+  obtain ⟨e, _, h⟩ := decExact_iff_exists.mp h
+  obtain ⟨hi, hm⟩ := exactAt_iff.mp h
+  rw [decFits_iff]
+  have hd := x.den_pos
+  have h1 : x.num.natAbs * 10 ^ e = x.num.natAbs * 10 ^ e / x.den * x.den :=
+    (Nat.div_mul_cancel (Nat.dvd_of_mod_eq_zero hi)).symm
+  have h2 : x.num.natAbs ≤ x.num.natAbs * 10 ^ e :=
+    Nat.le_mul_of_pos_right _ (Nat.pow_pos (by decide))
+  have h3 := Nat.mul_le_mul_right x.den hm
+  omega
+
+/-- A magnitude of 2^96 or more always overflows. -/
+theorem decRound_none_of_ge {x : Rat} (h : ((decMantMax + 1 : Nat) : Rat) ≤ x.abs) : decRound x = none := by
+  rw [decRound, decRoundFrom_none_iff]
+  intro e _
+  have hn : (decMantMax + 1) * x.den ≤ x.num.natAbs := by
+    rcases abs_cases x with ⟨h0, e'⟩ | ⟨h0, e'⟩ <;> rw [e', Rat.le_iff] at h
+    · have := Rat.num_nonneg.mpr h0
+      simp only [Rat.num_natCast, Rat.den_natCast] at h
+      omega
+    · simp only [Rat.num_natCast, Rat.den_natCast, Rat.neg_num, Rat.neg_den] at h
+      omega
+  have h1 : decMantMax + 1 ≤ x.num.natAbs * 10 ^ e / x.den := by
+    rw [Nat.le_div_iff_mul_le x.den_pos]
+    exact Nat.le_trans hn (Nat.le_mul_of_pos_right _ (Nat.pow_pos (by decide)))
+  have := rneDiv_ge (x.num.natAbs * 10 ^ e) x.den
+  unfold mantAt; omega
+
+
+theorem div_pow_mul_div_pow (m₁ m₂ : Int) (s₁ s₂ : Nat) :
+    ((m₁ : Rat) / (10 : Rat) ^ s₁) * ((m₂ : Rat) / (10 : Rat) ^ s₂)
+      = ((m₁ * m₂ : Int) : Rat) / (10 : Rat) ^ (s₁ + s₂) := by
+  have h1 : (10 : Rat) ^ s₁ ≠ 0 := Rat.ne_of_gt (Rat.pow_pos (by decide))
+  have h2 : (10 : Rat) ^ s₂ ≠ 0 := Rat.ne_of_gt (Rat.pow_pos (by decide))
+  rw [Lean.Grind.Semiring.pow_add, Rat.intCast_mul]
+  grind
+
+/-- Digit form of the no-rounding domain of one multiplication: the scales add up to at most 28 and
+the product of the mantissas fits 96 bits. -/
+theorem decExact_mul_of_digits (m₁ m₂ : Int) (s₁ s₂ : Nat) (hs : s₁ + s₂ ≤ 28)
+    (hm : (m₁ * m₂).natAbs ≤ decMantMax) :
+    decExact (((m₁ : Rat) / (10 : Rat) ^ s₁) * ((m₂ : Rat) / (10 : Rat) ^ s₂)) = true := by
+  rw [div_pow_mul_div_pow]
+  exact decExact_of_mantissa _ _ hs hm
+
+theorem decMul_exact {a b : Rat} (h : decExact (a * b) = true) : decMul a b = some (a * b) := by
+  unfold decMul; exact decRound_exact h
+
+theorem checkedMul_decFits_of_exact {a b : Rat} (h : decExact (a * b) = true) :
+    checkedMul decFits a b = some (a * b) := by
+  unfold checkedMul; rw [if_pos (decFits_of_decExact h)]
+
+theorem notionalDec_exact {q p c : Rat} (h1 : decExact (q * p) = true)
+    (h2 : decExact (q * p * c) = true) : notionalDec q p c = some (q * p * c) := by
+  unfold notionalDec
+  rw [decMul_exact h1, Option.bind_some, decMul_exact h2]
+
+theorem deltaDec_exact {d cs q : Rat} {side : Side} (h1 : decExact (q * cs) = true)
+    (h2 : decExact (d * (q * cs)) = true) : deltaDec d cs side q = some (specDelta d cs side q) := by
+  unfold deltaDec
+  rw [decMul_exact h1, Option.bind_some, decMul_exact h2, Option.map_some]
+  cases side <;> simp only [specDelta, Option.some.injEq] <;> grind
+
+/-- `None` only when the exact product overflows. -/
+theorem decMul_none_overflow {a b : Rat} (h : decMul a b = none) : decFits (a * b) = false := by
+  cases hf : decFits (a * b) with
+  | false => rfl
+  | true =>
+    obtain ⟨v, hv⟩ := decRound_some_of_fits hf
+    unfold decMul at h; rw [h] at hv; cases hv
+
+theorem decMul_comm (a b : Rat) : decMul a b = decMul b a := by
+  unfold decMul; rw [Rat.mul_comm]
+
+theorem decExact_zero : decExact 0 = true := by decide +kernel
+
+theorem decMul_zero_left (b : Rat) : decMul 0 b = some 0 := by
+  have h : (0 : Rat) * b = 0 := Rat.zero_mul b
+  unfold decMul; rw [h]; exact decRound_exact decExact_zero
+
 end BarterModel.Risk
